@@ -242,7 +242,7 @@ def _hyp_shard(task: Tuple[int, int, int]) -> Report:
     from hypothesis import HealthCheck, Phase, given, settings, strategies as st
 
     rep = Report()
-    big = st.sampled_from([2 ** 32, 2 ** 40 + 1, 2 ** 59, 2 ** 60])
+    big = st.sampled_from([2 ** 32, 2 ** 40 + 1, 2 ** 56, 2 ** 58])  # clock0 + all sleeps + tail budget < 2^64
     dur = st.one_of(st.sampled_from(T_D), st.sampled_from(T_D), st.integers(0, 20), big, st.just(SC.YIELD))
     step = st.tuples(dur, st.booleans())
     bud = st.one_of(st.sampled_from((0,) + T_B), st.sampled_from(T_B), st.integers(0, 40), big)
@@ -338,7 +338,7 @@ def run(ctx: Ctx) -> Report:
     rsclient.build()
     PG.self_test()
     n_enum = 16 if ctx.quick else 48
-    n_hyp = ctx.pick(1200, 32000)
+    n_hyp = ctx.pick(1200, 20000)
     n_prog, n_var = ctx.pick((14, 4), (190, 6))
     tasks: List[Tuple[Any, ...]] = []
     # core.mix32(seed, shard, ...) begins with seed ^ shard, so small seeds would only permute the shard streams;
